@@ -58,6 +58,10 @@ pub mod bytecode_interpreter {
 pub mod type_scheme {
     pub use crate::typechecker::type_scheme::TypeScheme;
 }
+pub mod constraints {
+    pub use crate::type_variable::TypeVariable;
+    pub use crate::typechecker::verif_hooks::*;
+}
 pub mod unit_registry {
     pub use crate::unit_registry::*;
 }
